@@ -1,14 +1,17 @@
 // UNIT: id=C16 cxxflags="-DGALOIS_FORCE_STANDALONE -DGALOIS_PSTL_CUTOFF=vf_pstl_cutoff -DGALOIS_PSTL_BLOCK=vf_pstl_block"
 // ASSUME: the serial cut-off and the partition block size (literal 1024 in ParallelSTL.h, overridable only under GALOIS_VERIF) are set per obligation through the variables vf_pstl_cutoff / vf_pstl_block; the shipped relation cut-off == block size is kept
 // ASSUME: partition() runs over the on_each stand-in of C16_env.h: the T modelled workers run partition_helper::operator() ONE AFTER ANOTHER (worker 0 does all the block claiming, later workers find both cursors exhausted); interleavings of takeLow/takeHigh between workers are not covered here. The thread pool / on_each themselves are C03's subject
-// ASSUME: array lengths, block size and T are enumerated (vf_param); element values (and so the predicate bits: pred(v) = v & 1) are solver variables
+// ASSUME: array lengths, block size and T are enumerated (vf_param, table COMBOS in the file); element i is (i << 1 | bit_i) with a solver-chosen predicate bit (pred(v) = v & 1), so the elements are pairwise distinct and the permutation check is exact; dual_partition is also run on fully symbolic bytes
+// ASSUME: unwindset only tightens the bound of the three loops of dual_partition (<= block+1 iterations); unwinding assertions stay on, a stale loop id falls back to the global bound
 // ASSUME: the algorithms are templates over the iterator; they are instantiated with a harness random-access iterator that addresses a fixed array by index (vf16::It) and reports any dereference outside [first,last) as a failure; ob_partition_ptr instantiates raw pointers into a heap block of exactly n bytes (smaller bound, pointer comparisons are expensive for the solver)
 // OB: ob_dual_partition tier=quick solver=cadical unwind=5 timeout=120 params=4,4 bounds="dual_partition on two disjoint blocks of n1,n2 = 0..3 elements (16 queries) separated by one untouched element; ALL element values" desc="returned cursors lie inside their blocks, at least one block is exhausted, everything before the low cursor satisfies the predicate, everything from the high cursor on does not, the two blocks together are a permutation of their input, nothing else is written"
 // OB: ob_pstate_take tier=quick solver=cadical unwind=4 timeout=120 bounds="partition_helper_state over a 4096-element range: symbolic cursors first<=last, symbolic block size 1..1024; one takeLow or takeHigh (solver's choice)" desc="takeLow/takeHigh return a block of min(block size, remaining) elements that is a prefix/suffix of the unclaimed span, leave exactly the rest, and never touch the other cursor or the leftover span"
 // OB: ob_pstate_update tier=quick solver=cadical unwind=4 timeout=120 bounds="partition_helper_state::update with symbolic leftover span and two symbolic (possibly empty) blocks inside a 4096-element range" desc="update() grows the leftover span [rfirst,rlast) to the convex hull of itself and every NON-empty block; empty blocks are ignored; claim cursors untouched"
-// OB: ob_partition tier=quick solver=cadical unwind=9 timeout=180 params=8,3,2 bounds="ParallelSTL::partition: n = 0..7 elements, block size = cut-off = 1..3, T = 1..2 workers run in sequence (48 queries); ALL element values" desc="the result is a valid partition point (everything before satisfies the predicate, nothing from it on does) and the array is a permutation of the input; no access outside the array"
-// OB: ob_partition_leftover tier=quick solver=cadical unwind=9 timeout=180 params=8,3,2 bounds="as ob_partition, restricted to runs in which the workers leave at least one partially processed block (leftover span non-empty after on_each)" desc="delimits the failure of ob_partition: whenever a leftover span exists the serial clean-up yields a valid partition point and a permutation"
-// OB: ob_partition_ptr tier=quick solver=cadical unwind=6 timeout=300 params=2 bounds="ParallelSTL::partition over uint8_t* into a heap block of exactly n = 3..4 bytes, block size = cut-off = 2, one worker; ALL element values" desc="raw-pointer instantiation: valid partition point, permutation, no access outside the heap block"
+// OB: ob_partition tier=quick solver=cadical unwind=7 unwindset=g__ZN6galois11ParallelSTL14dual_partitionIN4vf162ItIhEEN12_GLOBAL__N_17OddPredEEESt4pairIT_S8_ES8_S8_S8_S8_T0_.0:4,g__ZN6galois11ParallelSTL14dual_partitionIN4vf162ItIhEEN12_GLOBAL__N_17OddPredEEESt4pairIT_S8_ES8_S8_S8_S8_T0_.1:4,g__ZN6galois11ParallelSTL14dual_partitionIN4vf162ItIhEEN12_GLOBAL__N_17OddPredEEESt4pairIT_S8_ES8_S8_S8_S8_T0_.2:4 timeout=180 params=13 bounds="ParallelSTL::partition, 13 (n, block, T) combinations: block = cut-off = 1 with n = 0..4, block 2 with n = 2..6 (T = 1 worker); T = 2 workers in sequence for (n,block) = (4,2),(5,2),(3,1); ALL 2^n predicate-bit vectors" desc="the result is a valid partition point (everything before satisfies the predicate, nothing from it on does) and the array is a permutation of the input; no access outside the array"
+// OB: ob_partition_b3 tier=quick solver=cadical unwind=8 unwindset=g__ZN6galois11ParallelSTL14dual_partitionIN4vf162ItIhEEN12_GLOBAL__N_17OddPredEEESt4pairIT_S8_ES8_S8_S8_S8_T0_.0:5,g__ZN6galois11ParallelSTL14dual_partitionIN4vf162ItIhEEN12_GLOBAL__N_17OddPredEEESt4pairIT_S8_ES8_S8_S8_S8_T0_.1:5,g__ZN6galois11ParallelSTL14dual_partitionIN4vf162ItIhEEN12_GLOBAL__N_17OddPredEEESt4pairIT_S8_ES8_S8_S8_S8_T0_.2:5 timeout=180 params=3 bounds="as ob_partition for block = cut-off = 3 with n = 4, 6, 7, one worker" desc="valid partition point and permutation with blocks of three elements (n = 6: both sides exhausted together; n = 7: short middle block)"
+// OB: ob_partition_leftover tier=quick solver=cadical unwind=7 unwindset=g__ZN6galois11ParallelSTL14dual_partitionIN4vf162ItIhEEN12_GLOBAL__N_17OddPredEEESt4pairIT_S8_ES8_S8_S8_S8_T0_.0:4,g__ZN6galois11ParallelSTL14dual_partitionIN4vf162ItIhEEN12_GLOBAL__N_17OddPredEEESt4pairIT_S8_ES8_S8_S8_S8_T0_.1:4,g__ZN6galois11ParallelSTL14dual_partitionIN4vf162ItIhEEN12_GLOBAL__N_17OddPredEEESt4pairIT_S8_ES8_S8_S8_S8_T0_.2:4 timeout=180 params=13 bounds="as ob_partition, restricted to runs in which the workers leave at least one partially processed block (leftover span non-empty after on_each)" desc="delimits the failure of ob_partition: whenever a leftover span exists the serial clean-up yields a valid partition point and a permutation"
+// OB: ob_partition_b3_leftover tier=quick solver=cadical unwind=8 unwindset=g__ZN6galois11ParallelSTL14dual_partitionIN4vf162ItIhEEN12_GLOBAL__N_17OddPredEEESt4pairIT_S8_ES8_S8_S8_S8_T0_.0:5,g__ZN6galois11ParallelSTL14dual_partitionIN4vf162ItIhEEN12_GLOBAL__N_17OddPredEEESt4pairIT_S8_ES8_S8_S8_S8_T0_.1:5,g__ZN6galois11ParallelSTL14dual_partitionIN4vf162ItIhEEN12_GLOBAL__N_17OddPredEEESt4pairIT_S8_ES8_S8_S8_S8_T0_.2:5 timeout=180 params=3 bounds="as ob_partition_b3, restricted to runs with a non-empty leftover span" desc="delimits the failure of ob_partition_b3"
+// OB: ob_partition_ptr tier=quick solver=cadical unwind=6 timeout=300 bounds="ParallelSTL::partition over uint8_t* into a heap block of exactly n = 4 bytes, block size = cut-off = 2, one worker; ALL element values" desc="raw-pointer instantiation: valid partition point, permutation, no access outside the heap block"
 #include "C16_env.h"
 #include "vf_standalone.h"
 #include <cstdlib>
@@ -22,10 +25,10 @@ typedef vf16::Store<uint8_t> S;
 typedef vf16::It<uint8_t> It;
 
 // the harness array holds n symbolic elements; a copy is kept
-void make_array(unsigned n, uint8_t* copy) {
+void make_array(unsigned n, uint8_t* copy, bool tagged) {
   S::n = n;
   vf16::unrolled<MAXN>(n, [&](unsigned i) {
-    S::v[i] = vf_nondet_u8();
+    S::v[i] = tagged ? (uint8_t)((i << 1) | (vf_nondet_bool() ? 1 : 0)) : vf_nondet_u8();
     copy[i] = S::v[i];
   });
 }
@@ -62,11 +65,16 @@ void observe_workers(void* fn) {
   if (g_require_leftover) vf_assume(!(s->rfirst.i == S::n && s->rlast.i == 0));
 }
 
-void partition_scenario(bool requireLeftover) {
-  unsigned n = vf_param(0), block = vf_param(1) + 1, T = vf_param(2) + 1;
+// (n, block size = cut-off, T); the last three rows (block 3) are run by the _b3 obligations
+const uint8_t COMBOS[16][3] = {{0, 1, 1}, {1, 1, 1}, {2, 1, 1}, {3, 1, 1}, {4, 1, 1}, {2, 2, 1}, {3, 2, 1}, {4, 2, 1},
+                               {5, 2, 1}, {6, 2, 1}, {4, 2, 2}, {5, 2, 2}, {3, 1, 2}, {4, 3, 1}, {6, 3, 1}, {7, 3, 1}};
+
+void partition_scenario(bool requireLeftover, unsigned base) {
+  unsigned c = base + vf_param(0);
+  unsigned n = COMBOS[c][0], block = COMBOS[c][1], T = COMBOS[c][2];
   vf16::init(T, block, block, false);
   uint8_t in[MAXN];
-  make_array(n, in);
+  make_array(n, in, true);
   g_require_leftover = requireLeftover;
   vf16::post_on_each = observe_workers;
   It p               = galois::ParallelSTL::partition(It(0), It(n), OddPred());
@@ -78,7 +86,7 @@ void partition_scenario(bool requireLeftover) {
 OB(dual_partition) {
   unsigned n1 = vf_param(0), n2 = vf_param(1), n = n1 + 1 + n2;
   uint8_t in[MAXN];
-  make_array(n, in);
+  make_array(n, in, false);
   It f1(0), l1(n1), f2(n1 + 1), l2(n);
   auto r = galois::ParallelSTL::dual_partition(f1, l1, f2, l2, OddPred());
   VF_CHECKM(f1 <= r.first && r.first <= l1, "low cursor inside the low block");
@@ -143,11 +151,13 @@ OB(pstate_update) {
   VF_CHECKM(s.Lock.is_locked() == false, "lock released");
 }
 
-OB(partition) { partition_scenario(false); }
-OB(partition_leftover) { partition_scenario(true); }
+OB(partition) { partition_scenario(false, 0); }
+OB(partition_leftover) { partition_scenario(true, 0); }
+OB(partition_b3) { partition_scenario(false, 13); }
+OB(partition_b3_leftover) { partition_scenario(true, 13); }
 
 OB(partition_ptr) {
-  unsigned n = vf_param(0) + 3;
+  const unsigned n = 4;
   vf16::init(1, 2, 2, false);
   vf16::post_on_each = nullptr;
   uint8_t in[MAXN];
